@@ -37,7 +37,7 @@ PROBES = ["derived_object_as_base_argument", "same_object_two_handles", "delete_
           "property_roundtrip", "inherited_method_called", "enum_argument", "enum_return",
           "retained_object_returned_twice", "calls_after_unload", "nonconst_reference_argument",
           "uint64_argument_above_2_53", "class_typed_property_read", "class_typed_property_written",
-          "template_instantiation_used", "library_retained_an_argument"]
+          "template_instantiation_used", "library_retained_an_argument", "ambiguous_overload_shadowed"]
 
 
 def batches(tier):
@@ -176,8 +176,11 @@ def prepare(tier, seed):
         if ce and re.search(r"['\u2018](mx|mex)\w+['\u2019] was not declared", ce):
             shutil.rmtree(tmp, ignore_errors=True)
             raise RuntimeError("the generated gateway uses MEX API the mock lacks: " + ce[:500])
-        if ce and all(re.search(r"(driver_gateway\.cpp|mex_runtime\.cpp|mexsim/|/lib\.h)", ln)
-                      for ln in ce.splitlines() if "error" in ln):
+        if ce and (any(re.search(r"/lib\.h:\d+", ln) for ln in ce.splitlines() if "error" in ln) or
+                   all(re.search(r"(driver_gateway\.cpp|mex_runtime\.cpp|mexsim/)", ln)
+                       for ln in ce.splitlines() if "error" in ln)):
+            # the instrumented library (generated from the model) or the driver does not compile on its
+            # own: a defect of the harness, never a verdict about the gateway
             shutil.rmtree(tmp, ignore_errors=True)
             raise RuntimeError("the harness's own C++ does not compile (program %d): %s" % (info["k"], ce[:800]))
     special = [p for p in progs if p["k"] < 0]
@@ -328,6 +331,24 @@ class Hist:
                 a == mname(ty.name) for a in self.s.ancestors(v.cls))
         return False
 
+    def shadowed(self, family, f, vals):
+        """MATLAB dispatches to the FIRST overload whose guard accepts the values.  The guards only look at
+        the MATLAB class (isa numeric / double / ...), so another overload of the family may capture values
+        meant for `f` and then fail to convert them (a 2x1 double given to `int`).  Such a call is not a
+        well-defined request for `f`; its outcome is not judged."""
+        for g in family:
+            if g is f:
+                continue
+            nd = 0
+            for a in reversed(g.args):
+                if a.default is None:
+                    break
+                nd += 1
+            if len(g.args) - nd <= len(vals) <= len(g.args) and \
+                    all(self.compatible(v, a.ty) for v, a in zip(vals, g.args)):
+                return True
+        return False
+
     # -- trace handling ----------------------------------------------------------------------
     def absorb_trace(self):
         evs = []
@@ -371,6 +392,8 @@ class Hist:
                      (what, ev["entity"], len(got), len(exp)))
             return
         for i, (g, x) in enumerate(zip(got, exp)):
+            if x is None:
+                continue
             if isinstance(x, tuple):        # by-value object: a copy of the designated object
                 if not (g.startswith("o:") and g[2:].lstrip("-").isdigit() and
                         self.is_copy_of(int(g[2:]), x[1])):
@@ -414,8 +437,10 @@ class Hist:
                 else:
                     val = self.s.num(o)
                 want = int(r[2:])
-                if ty.name == "int" and want < 0:
-                    want &= 0xFFFFFFFF
+                if ty.name == "int" and val is not None:
+                    # the header stores an int in the low bytes of a wider unsigned array today; a signed
+                    # 32-bit array would be just as right: compare as 32-bit two's complement
+                    val, want = int(val) & 0xFFFFFFFF, want & 0xFFFFFFFF
                 if val != want:
                     bad("value %r != %r" % (val, want))
             elif ty.name == "double":
@@ -622,8 +647,15 @@ class Hist:
         try:
             obj = self.s.construct(mname(c.qname), vals)
         except S.MatlabError as e:
-            if self.expect_throw:
+            if self.expect_throw and e.from_mex and "injected failure" in e.msg:
                 return self.after_exception(e)
+            if self.expect_throw:
+                self.expect_throw = False
+                self.s.simple("throw_at 0", "ok")
+            if e.from_mex and self.shadowed(c.ctors, f, vals):
+                self.pr("ambiguous_overload_shadowed")
+                self.absorb_trace()
+                return
             self.add("G1", "G1:wellformed-call-refused", "well-typed constructor call raised: %s" % e.msg)
             return
         if self.expect_throw:
@@ -662,9 +694,12 @@ class Hist:
         for v, a in zip(vals, f.args):
             n = a.ty.name
             if a.ty.kind == "prim" and n == "int":
-                out.append("i:%d" % int(self.s.num(v)))
+                x = self.s.num(v)
+                # a double outside the int range converts with undefined behaviour: not judged
+                out.append("i:%d" % int(x) if -2147483648 <= x <= 2147483647 else None)
             elif a.ty.kind == "prim" and n == "size_t":
-                out.append("z:%d" % int(self.s.num(v)))
+                x = self.s.num(v)
+                out.append("z:%d" % int(x) if 0 <= x < 18446744073709551616 else None)
             elif a.ty.kind == "prim" and n == "double":
                 out.append("d:" + struct.pack("<d", float(v.data[0])).hex())
             elif a.ty.kind == "prim" and n == "bool":
@@ -755,8 +790,16 @@ class Hist:
         try:
             outs = call()
         except S.MatlabError as e:
-            if self.expect_throw:
+            if self.expect_throw and e.from_mex and "injected failure" in e.msg:
                 return self.after_exception(e)
+            if self.expect_throw:
+                # the call never reached the library: the armed injection is withdrawn, the refusal judged as such
+                self.expect_throw = False
+                self.s.simple("throw_at 0", "ok")
+            if e.from_mex and self.shadowed(family, f, vals):
+                self.pr("ambiguous_overload_shadowed")
+                self.absorb_trace()
+                return
             g = getattr(f, "generic", None)
             cls = "wellformed-call-refused"
             if g is not None and any(a.ty.kind == "this" for a in g.args):
@@ -896,8 +939,8 @@ class Hist:
             else:
                 g = self.s.num(got)
             w = int(self.s.num(want))
-            if pt.name == "int" and w < 0:
-                w &= 0xFFFFFFFF
+            if pt.name == "int":
+                g, w = int(g) & 0xFFFFFFFF, w & 0xFFFFFFFF
             return g == w
         if pt.kind == "prim" and pt.name == "double":
             return isinstance(got, S.MDouble) and got.data[:1] == want.data[:1]
